@@ -1,11 +1,11 @@
 SPECIFICATION Spec
 CONSTANTS MaxDepth = 3
-  Families <- FamT_C
+  Families <- FamNoSkip
   StoreByCopy = TRUE
   TailKeepsSets = TRUE
   SplitContinues = TRUE
-  SkipEmpty = TRUE
+  SkipEmpty = FALSE
   SplitCachesExport = FALSE
   SrcFRepass = TRUE
-INVARIANT Emitted
+INVARIANT SeenIsExpected
 CHECK_DEADLOCK FALSE
